@@ -121,9 +121,16 @@ func ruleC05_2(c *Ctx) {
 	pr := c.An.Prune(sr, nil)
 	isWrite := func(in ssa.Instruction) bool { return c.An.CallsRole(in, "writeEntry") }
 	var stripArg ssa.Value
+	stripFn := c.A.F("stripHop")
+	inlineRange, inlineResp := c.hopStripLoop(sr)
 	r := c.An.MustPass(pr, isWrite, func(in ssa.Instruction) bool {
-		if call := callOf(in); call != nil && call.StaticCallee() == c.A.F("stripHop") {
+		if call := callOf(in); call != nil && call.StaticCallee() == stripFn && stripFn != sr {
 			stripArg = call.Args[0]
+			return true
+		}
+		// the strip written out in the storing function itself: the loop over the table that deletes each member
+		if inlineRange != nil && in == ssa.Instruction(inlineRange) {
+			stripArg = inlineResp
 			return true
 		}
 		return false
@@ -151,6 +158,72 @@ func ruleC05_2(c *Ctx) {
 	} else {
 		c.Fail("C05.2", "strip-before-write", desc, c.P.ShortName(sr)+": the stripped response is not the one stored in the entry")
 	}
+}
+
+// hopStripLoop: in fn, `for k := range <hop-by-hop table of resp.Header> { delete(resp.Header, k) }`; returns the range
+// instruction (executed once, before the first iteration) and the response whose header is stripped.
+func (c *Ctx) hopStripLoop(fn *ssa.Function) (*ssa.Range, ssa.Value) {
+	ht := c.A.F("hopTable")
+	if ht == nil {
+		return nil, nil
+	}
+	var rng *ssa.Range
+	var resp ssa.Value
+	instrsOf(fn, func(in ssa.Instruction) {
+		r, ok := in.(*ssa.Range)
+		if !ok {
+			return
+		}
+		fromTable := false
+		for _, root := range c.P.Roots(r.X, TraceOpts{NoParams: true}) {
+			if call, ok := root.(*ssa.Call); ok && call.Call.StaticCallee() == ht {
+				fromTable = true
+			}
+		}
+		if call, ok := c.An.canon(r.X).(*ssa.Call); ok && call.Call.StaticCallee() == ht {
+			fromTable = true
+		}
+		if !fromTable {
+			return
+		}
+		// a delete keyed by this iteration's key, not under any further condition inside the loop body
+		instrsOf(fn, func(i2 ssa.Instruction) {
+			call := callOf(i2)
+			if call == nil {
+				return
+			}
+			var hdr, key ssa.Value
+			if b, ok := call.Value.(*ssa.Builtin); ok && b.Name() == "delete" && len(call.Args) == 2 && isHTTPHeader(call.Args[0].Type()) {
+				hdr, key = call.Args[0], call.Args[1]
+			} else if callIsMethod(call, "net/http", "Header", "Del") {
+				rv, args := recvAndArgs(call)
+				hdr, key = rv, args[0]
+			} else {
+				return
+			}
+			ex, ok := c.An.canon(key).(*ssa.Extract)
+			if !ok {
+				return
+			}
+			nx, ok := ex.Tuple.(*ssa.Next)
+			if !ok || nx.Iter != ssa.Value(r) {
+				return
+			}
+			// the only condition between the iteration step and the delete is the loop's own "more elements" test
+			for _, dc := range dominatingConds(i2.Block()) {
+				if dc.block == nx.Block() || !nx.Block().Dominates(dc.block) {
+					continue
+				}
+				return
+			}
+			if u, ok := c.An.canon(hdr).(*ssa.UnOp); ok {
+				if fa, ok := u.X.(*ssa.FieldAddr); ok && isHTTPResponsePtr(fa.X.Type()) {
+					rng, resp = r, fa.X
+				}
+			}
+		})
+	})
+	return rng, resp
 }
 
 // ruleCodecPair (C05.4 / C09.2): the entry is dumped with its body and parsed by the inverse reader.
